@@ -161,14 +161,26 @@ def cell_sample(spec):
         extra = [('$TIMESTEP', '0.1')] + [('$P%dV' % (k + 3), str(v)) for k, v in enumerate(spec['voltages'])]
     if spec.get('no_voltage'):               # the optional $PnV keywords are not recorded at all
         extra = [('$TIMESTEP', '0.1')]
+    # how the file records time: 'ticks' (time channel counting up, the default), 'flat' (every event in the same tick: 0 s),
+    # 'btim-equal' / 'btim' (no time step; start and end time keywords, equal or 100 s apart), 'none' (no time information at all)
+    clock = spec.get('clock', 'ticks')
+    tick = (lambda t: t) if clock != 'flat' else (lambda t: 7)
+    if clock in ('btim-equal', 'btim', 'none'):
+        extra = [kv for kv in extra if kv[0] != '$TIMESTEP']
+        if clock != 'none':
+            extra += [('$DATE', '05-MAR-2021'), ('$BTIM', '10:00:00'), ('$ETIM', '10:00:00' if clock == 'btim-equal' else '10:01:40')]
     if spec.get('container', 'int') == 'int':
         events = []
         for t, r in enumerate(rows):
             events.append([int(min(1023, max(0, round(r[0])))), int(min(1023, max(0, round(r[1]))))] +
-                          [to_channel(v, A0, cres[k]) for k, v in enumerate(r[2:])] + [t])
+                          [to_channel(v, A0, cres[k]) for k, v in enumerate(r[2:])] + [tick(t)])
         pne_fl = '%g,%g' % (A0, A1) if not spec.get('linear_fl') else '0,0'
+        pnes = [pne_fl] * nch
+        if spec.get('linear_fl') == 'second':           # only the second fluorescence channel has a linear amplifier
+            pnes = ['%g,%g' % (A0, A1)] * nch
+            pnes[1] = '0,0'
         lay = dict(datatype='I', bits=[16] * (D - 1) + [32], ranges=[1024, 1024] + list(cres) + [2 ** 24], names=names,
-                   pne=['0,0', '0,0'] + [pne_fl] * nch + ['0,0'], events=events, byteord='4,3,2,1', extra=extra)
+                   pne=['0,0', '0,0'] + pnes + ['0,0'], events=events, byteord='4,3,2,1', extra=extra)
     else:
         events = []
         dtc = 'D' if spec.get('container') == 'double' else 'F'
@@ -180,7 +192,7 @@ def cell_sample(spec):
                 vals[3] = float('nan')              # an event without a value in the second fluorescence channel (floating-point files may hold NaN)
             if spec.get('overrange') and t % 11 == 5:
                 vals[t % 2] = 300000.0 + t          # a scatter value beyond the declared range (floating-point files are not clipped)
-            events.append([fcsgen.float_bits(v, dtc) for v in vals] + [fcsgen.float_bits(float(t), dtc)])
+            events.append([fcsgen.float_bits(v, dtc) for v in vals] + [fcsgen.float_bits(float(tick(t)), dtc)])
         lay = dict(datatype=dtc, bits=[32 if dtc == 'F' else 64] * D, ranges=[262144] * D, names=names, pne=['0,0'] * D, events=events,
                    byteord='1,2,3,4', extra=extra)
     return lay
